@@ -121,6 +121,19 @@ def eval_remover_flow(ctx, R, fname, en_name, en, sugar_kind, expr_remover, is_s
             return any(contains(y, what, depth + 1) for y in x.values())
         return False
 
+    def has_kind(x, kind, depth=0):
+        if depth > 10:
+            return False
+        if isinstance(x, tuple) and len(x) > 3 and x[0] == "V" and x[2] == kind:
+            return True
+        if isinstance(x, Sink):
+            return any(has_kind(y, kind, depth + 1) for y in x.items)
+        if isinstance(x, (tuple, list)):
+            return any(has_kind(y, kind, depth + 1) for y in x if isinstance(y, (tuple, list, dict, Sink)))
+        if isinstance(x, dict):
+            return any(has_kind(y, kind, depth + 1) for y in x.values())
+        return False
+
     def argv_for(node):
         out = []
         for i in fn["sig"]["inputs"]:
@@ -178,14 +191,17 @@ def eval_remover_flow(ctx, R, fname, en_name, en, sugar_kind, expr_remover, is_s
                 positions.append((f_["name"], "opt", "s"))
         problems = []
         unsupported = None
-        worlds = [None] + positions
+        worlds = [None] + positions + ([(f_, i_, k_, "nested") for f_, i_, k_ in positions] if not anon else [])
         for pos in worlds:
             lv = Leaves()
             node, _b = passeval.build_node(en_name, vname, vdef, lv, True)
             planted = None
             if pos is not None:
-                fld, ix, kind = pos
+                fld, ix, kind = pos[:3]
                 sg = sugar(lv)
+                if len(pos) > 3:
+                    # a tuple inside a tuple: splitting the outer one does not remove the sugar
+                    sg = V("Expression", "Tuple", meta=O("outer-sugar-meta"), values=("L", (sg, lv.expr("sugar2"))))
                 planted = sg if kind == "e" else V("Statement", "Return", meta=O("stmt-meta"), value=sg)
                 if ix is None:
                     node[3][fld] = planted
@@ -237,7 +253,19 @@ def eval_remover_flow(ctx, R, fname, en_name, en, sugar_kind, expr_remover, is_s
             is_ok = isinstance(res, tuple) and len(res) > 2 and res[1] == "Ok"
             if pos is not None:
                 same_kind = [h for h in handed if isinstance(h, tuple) and len(h) > 2 and h[0] == "V" and h[2] == sugar_kind]
-                if not (is_err or any(contains(h, planted) or shares(h, planted if pos[2] == "e" else planted[3]["value"]) for h in handed) or same_kind):
+                # desugared on the spot: the result holds no node of the sugar kind any more, and still holds what the sugar held
+                sg_node = planted if pos[2] == "e" else planted[3]["value"]
+                def held_by(nd):
+                    out_ = []
+                    for v_ in nd[3].values():
+                        if isinstance(v_, tuple) and v_ and v_[0] == "L":
+                            for y in v_[1]:
+                                out_ += held_by(y) if isinstance(y, tuple) and len(y) > 3 and y[0] == "V" and y[2] == sugar_kind else [y]
+                    return out_
+
+                held = held_by(sg_node)
+                in_place = is_ok and not has_kind(res, sugar_kind) and bool(held) and all(contains(res, y) for y in held)
+                if not (in_place or is_err or any(contains(h, planted) or shares(h, planted if pos[2] == "e" else planted[3]["value"]) for h in handed) or same_kind):
                     problems.append("a %s in %s%s is neither rejected nor handed to a remover" % ("tuple" if not anon else "anonymous component", pos[0], "" if pos[1] is None else "[%s]" % pos[1]))
             else:
                 if not is_ok:
@@ -932,6 +960,135 @@ def _objs_k(x, depth=0):
             yield from _objs_k(y, depth + 1)
 
 
+def eval_anonymous(ctx, R):
+    """`T(params)(signals)` through remove_anonymous_from_expression: the template declares inputs (c, a, b) - not in
+    alphabetical order - and the call binds them positionally, by name in declaration order, or by name permuted, with
+    different operators per name.  The statements returned must instantiate the component first and then assign, for
+    every declared input in declaration order, the value bound to that input with the operator written next to it
+    (`<==` for positional calls) to that input's port; a missing name, a wrong number of signals and an unknown
+    template are errors.  Returns True when decided."""
+    import passeval
+    from finfun import E, NONE, S, Unsupported
+    from passeval import MMap, O, Sink, V
+
+    try:
+        w = passeval.PassWorld([AST, "program_structure/src/abstract_syntax_tree/expression_impl.rs", "program_structure/src/abstract_syntax_tree/statement_impl.rs", SST, SSR], SSR)
+    except Exception:
+        return False
+    w.lenient_opaque = True
+    fn = w.free.get("remove_anonymous_from_expression")
+    if fn is None:
+        return False
+    tys = [i["ty"].replace(" ", "") for i in fn["sig"]["inputs"]]
+    if len(tys) != 4 or tys[2] != "Expression" or not tys[3].startswith("&Option<"):
+        return False
+
+    def L(xs):
+        return ("L", tuple(xs))
+
+    w.stubs = {
+        "build_call": lambda a: V("Expression", "Call", meta=a[0], id=a[1], args=a[2]),
+        "build_parallel_op": lambda a: V("Expression", "ParallelOp", meta=a[0], rhe=a[1]),
+        "build_array_access": lambda a: S("ArrayAccess", a[0]),
+        "build_declaration": lambda a: V("Statement", "Declaration", meta=a[0], xtype=a[1], name=a[2], dimensions=a[3], is_constant=False),
+        "build_substitution": lambda a: V("Statement", "Substitution", meta=a[0], var=a[1], access=a[2], op=a[3], rhe=a[4]),
+        "build_variable": lambda a: V("Expression", "Variable", meta=a[0], name=a[1], access=a[2]),
+        "build_tuple": lambda a: V("Expression", "Tuple", meta=a[0], values=a[1]),
+    }
+    DECL = ["c", "a", "b"]
+    OPS = {"<--": E("AssignOp", "AssignSignal"), "<==": E("AssignOp", "AssignConstraintSignal"), "=": E("AssignOp", "AssignVar")}
+    tdata = ("O", "template-data", (("get_declaration_inputs", L(("T", (nm, 0)) for nm in DECL)), ("get_declaration_outputs", L([("T", ("out", 0))]))))
+    flib = ("O", "file_library", (("get_line", ("PY", lambda *a: S("Some", 7))),))
+    bad = {}
+    n = 0
+
+    def leafs(k):
+        return [V("Expression", "Variable", meta=O("meta-of-signal%d" % i), name="s%d" % i, access=L([])) for i in range(k)]
+
+    worlds = [
+        ("positional", None, 3, "ok"),
+        ("named in declaration order", [("<--", "c"), ("<==", "a"), ("<--", "b")], 3, "ok"),
+        ("named, permuted", [("<--", "b"), ("<==", "c"), ("<--", "a")], 3, "ok"),
+        ("named, all `<--`", [("<--", "a"), ("<--", "b"), ("<--", "c")], 3, "ok"),
+        ("named, one input missing", [("<--", "c"), ("<==", "a"), ("<--", "x")], 3, "err"),
+        ("positional, one signal too few", None, 2, "err"),
+        ("positional, one signal too many", None, 4, "err"),
+        ("named, one signal too many", [("<--", "c"), ("<==", "a"), ("<--", "b"), ("<--", "b")], 4, "err"),
+        ("unknown template", None, 3, "unknown"),
+    ]
+    try:
+        for tag, names, nsig, outcome in worlds:
+            for access in (None, "idx"):
+                sigs = leafs(nsig)
+                meta = ("O", "call-meta", (("start", 1234), ("get_file_id", O("file-id")), ("clone", ("PY", lambda: meta_holder[0]))))
+                meta_holder = [meta]
+                nv = NONE if names is None else S("Some", L(("T", (OPS[o_], nm_)) for o_, nm_ in names))
+                node = V("Expression", "AnonymousComponent", meta=meta, id="T", is_parallel=False, params=L([]), signals=L(sigs), names=nv)
+                templates = MMap([] if outcome == "unknown" else [["T", tdata]])
+                va = NONE if access is None else S("Some", V("Expression", "Variable", meta=O("index-meta"), name="i", access=L([])))
+                res = w.call_fn(fn, [templates, flib, node, va])
+                n += 1
+                wtag = "%s%s" % (tag, "" if access is None else ", inside an indexed context")
+                is_err = isinstance(res, tuple) and len(res) > 2 and res[1] == "Err"
+                if outcome != "ok":
+                    if not is_err:
+                        bad.setdefault("errors", "%s: accepted" % wtag)
+                    continue
+                if is_err or not (isinstance(res, tuple) and len(res) > 2 and res[1] == "Ok" and isinstance(res[2][0], tuple) and res[2][0][0] == "T" and len(res[2][0][1]) == 3):
+                    bad.setdefault("errors", "%s: returns %s" % (wtag, "an error" if is_err else repr(res)[:120]))
+                    continue
+                stmts = res[2][0][1][0]
+                items = list(stmts.items) if isinstance(stmts, Sink) else (list(stmts[1]) if isinstance(stmts, tuple) and stmts[0] == "L" else None)
+                if items is None:
+                    raise Unsupported("the statement list is %r" % (stmts,))
+                def flat(xs):
+                    out_ = []
+                    for x in xs:
+                        if isinstance(x, tuple) and len(x) > 3 and x[0] == "V" and x[2] in ("Block", "InitializationBlock") and "stmts" in x[3]:
+                            inner = x[3]["stmts"]
+                            out_ += flat(list(inner.items) if isinstance(inner, Sink) else list(inner[1]))
+                        else:
+                            out_.append(x)
+                    return out_
+
+                subs = [x for x in flat(items) if isinstance(x, tuple) and len(x) > 3 and x[0] == "V" and x[2] == "Substitution"]
+                if not subs or not (isinstance(subs[0][3]["rhe"], tuple) and subs[0][3]["rhe"][0] == "V" and subs[0][3]["rhe"][2] in ("Call", "ParallelOp")) or subs[0][3]["op"] != OPS["="]:
+                    bad.setdefault("instantiation", "%s: the first statement is not the instantiation of the component" % wtag)
+                    continue
+                fresh = subs[0][3]["var"]
+                ins = subs[1:]
+                bound = {nm_: (sigs[k], OPS[o_]) for k, (o_, nm_) in enumerate(names)} if names is not None else {nm_: (sigs[k], OPS["<=="]) for k, nm_ in enumerate(DECL)}
+                if len(ins) != len(DECL):
+                    bad.setdefault("binding", "%s: %d input assignment(s) for %d declared inputs" % (wtag, len(ins), len(DECL)))
+                    continue
+                for k, nm_ in enumerate(DECL):
+                    st = ins[k][3]
+                    acc = st["access"]
+                    acc = list(acc.items) if isinstance(acc, Sink) else (list(acc[1]) if isinstance(acc, tuple) and acc[0] == "L" else [])
+                    port = acc[-1] if acc else None
+                    if st["var"] is not fresh and st["var"] != fresh:
+                        bad.setdefault("binding", "%s: input %d is assigned to another variable than the component" % (wtag, k))
+                    elif not (isinstance(port, tuple) and port[0] == "S" and port[1] == "ComponentAccess" and port[2][0] == nm_):
+                        bad.setdefault("port", "%s: assignment %d goes to port %s, the %s declared input is `%s`" % (wtag, k, port[2][0] if isinstance(port, tuple) and len(port) > 2 and port[2] else port, ["first", "second", "third"][k], nm_))
+                    elif st["rhe"] is not bound[nm_][0]:
+                        bad.setdefault("value", "%s: port `%s` is given %s, the call binds it to %s" % (wtag, nm_, st["rhe"][3].get("name") if isinstance(st["rhe"], tuple) and len(st["rhe"]) > 3 else st["rhe"], bound[nm_][0][3]["name"]))
+                    elif st["op"] != bound[nm_][1]:
+                        bad.setdefault("operator", "%s: port `%s` is assigned with %s, the call writes %s" % (wtag, nm_, st["op"][2] if isinstance(st["op"], tuple) else st["op"], bound[nm_][1][2]))
+                    elif (access is not None) != (len(acc) == 2 and isinstance(acc[0], tuple) and acc[0][1] == "ArrayAccess"):
+                        bad.setdefault("port", "%s: the access path of port `%s` is %r" % (wtag, nm_, acc))
+    except (Unsupported, passeval.Panic) as u:
+        ctx.note("remove_anonymous_from_expression/AnonymousComponent (binding) is outside the evaluator's subset (%s): shape obligations apply" % u)
+        return False
+    finally:
+        w.stubs = {}
+    ctx.floor(R, "anonymous component call worlds evaluated", n, 18)
+    ctx.check(R, "anonymous/instantiation-first", "instantiation" not in bad, bad.get("instantiation", "the component is instantiated before any of its inputs is assigned"), site(SSR, fn))
+    ctx.check(R, "anonymous/input-assigned-to-its-port", "port" not in bad and "binding" not in bad, bad.get("port") or bad.get("binding") or "one assignment per declared input, in declaration order, to that input's port", site(SSR, fn))
+    ctx.check(R, "anonymous/named-input/value-and-operator-by-the-same-position", "value" not in bad and "operator" not in bad, bad.get("value") or bad.get("operator") or "each port gets the value and the operator written for its own name; positional inputs get `<==`", site(SSR, fn))
+    ctx.check(R, "anonymous/arity-checked", "errors" not in bad, bad.get("errors", "a missing name, a wrong number of signals and an unknown template are rejected"), site(SSR, fn))
+    return True
+
+
 def rule_binding(ctx):
     R = "C18.4"
     ctx.rule(R, "anonymous-component inputs and outputs are bound in declaration order (never the sorted name maps); a named input takes the operator written next to its own name; the arity is checked; `_` targets consume their value; the grammar keeps every input name")
@@ -989,13 +1146,22 @@ def rule_binding(ctx):
         parts_ = [render(strip(x)).replace(" ", "") for x in summands(nm_)] if nm_ is not None else []
         okn = okn and any(x in ("meta.start.to_string()", "meta.start", "meta.get_start().to_string()", "meta.location.start.to_string()") for x in parts_)
     ctx.check(R, "anonymous/fresh-name-contains-the-call-offset", okn, "two anonymous components on one line must not share a name (shadowing, merged definitions)", site(SSR, fn))
+    decided_anon = eval_anonymous(ctx, R)
+
+    class _Decided:
+        """the obligations below are the shape form of what the evaluation has decided"""
+
+        def check(self, *a_, **k_):
+            return None
+
+    cx = _Decided() if decided_anon else ctx
     import sgrep
     body = fn["body"]
     t = render(body).replace(" ", "")
     # names of the working variables, found by what they are built from
     b = {}
     r = sgrep.find(body, "let (__ops, __names) = __m.iter().cloned().unzip()")
-    ctx.check(R, "anonymous/named-input/names-and-operators-unzipped-together", len(r) == 1, "the (operator, name) pairs are split into two parallel vectors", site(SSR, fn))
+    cx.check(R, "anonymous/named-input/names-and-operators-unzipped-together", len(r) == 1, "the (operator, name) pairs are split into two parallel vectors", site(SSR, fn))
     if r:
         b.update({k: v for k, v in r[0][1].items() if k in ("__ops", "__names")})
     ok_pos = False
@@ -1007,24 +1173,24 @@ def rule_binding(ctx):
         if sv and ov:
             ok_pos = True
             b["__ns"], b["__no"], b["__sig"], b["__inp"] = sv[0][1]["__ns"], ov[0][1]["__no"], sv[0][1]["__sig"], bb["__inp"]
-    ctx.check(R, "anonymous/named-input/value-and-operator-by-the-same-position", ok_pos, "the value and the operator of a named input must both be taken at the position of that input's name in the call", site(SSR, fn))
+    cx.check(R, "anonymous/named-input/value-and-operator-by-the-same-position", ok_pos, "the value and the operator of a named input must both be taken at the position of that input's name in the call", site(SSR, fn))
     ns, no, sig = b.get("__ns", "new_signals"), b.get("__no", "new_operators"), b.get("__sig", "signals")
     okp = sgrep.has(body, "__ns.clone_from(__sig)", None, {"__ns": ns, "__sig": sig}) and sgrep.has(body, "for _ in 0..__sig.len() { __no.push(AssignOp::AssignConstraintSignal); }", None, {"__no": no, "__sig": sig})
-    ctx.check(R, "anonymous/positional-input/constraint-assignment", okp, "positional inputs are all assigned with `<==`, one operator per signal", site(SSR, fn))
+    cx.check(R, "anonymous/positional-input/constraint-assignment", okp, "positional inputs are all assigned with `<==`, one operator per signal", site(SSR, fn))
     inputs = [k for k, v in sgrep.lets(body).items() if render(strip(v)).replace(" ", "").endswith(".get_declaration_inputs()")]
     inp_name = inputs[0] if inputs else "inputs"
     ar = [i_ for i_ in walk(body) if i_["k"] == "If" and sgrep.has(i_["cond"], "__i.len() != __a.len()", None, {"__i": inp_name})]
     oka = any(("%s.len()!=%s.len()" % (inp_name, ns)) in render(i_["cond"]).replace(" ", "") and ("%s.len()!=%s.len()" % (inp_name, sig)) in render(i_["cond"]).replace(" ", "") and "Err(" in render(i_["then"]) for i_ in ar)
-    ctx.check(R, "anonymous/arity-checked", oka, "the number of inputs must equal both the number of bound signals and the number of signals written in the call", site(SSR, fn))
+    cx.check(R, "anonymous/arity-checked", oka, "the number of inputs must equal both the number of bound signals and the number of signals written in the call", site(SSR, fn))
     okm = any(i_["k"] == "If" and sgrep.has(i_["cond"], "!__names.contains(__inp.0)", None, {"__names": b.get("__names", "names")}) and "Err(" in render(i_["then"]) for i_ in walk(body))
-    ctx.check(R, "anonymous/missing-named-input-rejected", okm, "", site(SSR, fn))
+    cx.check(R, "anonymous/missing-named-input-rejected", okm, "", site(SSR, fn))
     # input i gets signal i and operator i
     cnt = [k for k, v in sgrep.lets(body).items() if render(strip(v)) == "0"]
     oki = False
     for c_ in cnt:
         if sgrep.has(body, "__ns.get(__i).unwrap().clone()", None, {"__ns": ns, "__i": c_}) and sgrep.has(body, "*__no.get(__i).unwrap()", None, {"__no": no, "__i": c_}) and sgrep.has(body, "__i += 1", None, {"__i": c_}):
             oki = True
-    ctx.check(R, "anonymous/input-i-gets-signal-i-and-operator-i", oki, "one counter indexes the bound signals and their operators and is advanced once per input", site(SSR, fn))
+    cx.check(R, "anonymous/input-i-gets-signal-i-and-operator-i", oki, "one counter indexes the bound signals and their operators and is advanced once per input", site(SSR, fn))
     okport = False
     for st_ in walk(body):
         if st_["k"] == "Struct" and last(st_["path"]) == "Substitution":
@@ -1032,7 +1198,7 @@ def rule_binding(ctx):
             if "new_operators" in render(fl.get("op", {"k": "?"})) or no in render(fl.get("op", {"k": "?"})):
                 accn = render(strip(fl["access"]))
                 okport = sgrep.has(body, "__acc.push(Access::ComponentAccess(__inp.0.clone()))", None, {"__acc": accn}) or sgrep.has(body, "__acc.push(Access::ComponentAccess(__inp.0))", None, {"__acc": accn})
-    ctx.check(R, "anonymous/input-assigned-to-its-port", okport, "the input substitution's access path ends with the input's own port name", site(SSR, fn))
+    cx.check(R, "anonymous/input-assigned-to-its-port", okport, "the input substitution's access path ends with the input's own port name", site(SSR, fn))
     subs_inst = [c_ for c_ in walk(body) if c_["k"] == "Call" and c_["func"]["k"] == "Path" and last(c_["func"]["path"]) == "build_substitution" and len(c_["args"]) == 5 and render(strip(c_["args"][3])).endswith("AssignVar")]
     first_push = sorted([p_ for p_ in method_calls(body, "push") if "seq_substs" in render(p_["recv"]) or True], key=lambda x: x.get("mline", x["line"]))
     seqp = [p_ for p_ in method_calls(body, "push") if render(strip(p_["recv"])) in [render(strip(q["recv"])) for q in method_calls(body, "push") if any(x is y for y in walk(q["args"][0]) for x in subs_inst)] or False]
@@ -1047,7 +1213,7 @@ def rule_binding(ctx):
             vec = render(strip(inst_push[0]["recv"]))
             same = [p_ for p_ in pushes_ if render(strip(p_["recv"])) == vec]
             oki2 = bool(same) and same[0] is inst_push[0]
-    ctx.check(R, "anonymous/instantiation-first", oki2, "the component is instantiated before any of its inputs is assigned", site(SSR, fn))
+    cx.check(R, "anonymous/instantiation-first", oki2, "the component is instantiated before any of its inputs is assigned", site(SSR, fn))
     okt = False
     for r_ in walk(body):
         if r_["k"] == "Return" and r_.get("e") and "Err(" in render(r_["e"]) and "does not exist" in render(r_["e"]):
@@ -1056,7 +1222,7 @@ def rule_binding(ctx):
                     okt = True
                 if c_[0] == "if" and not c_[2] and strip(c_[1])["k"] == "MethodCall" and strip(c_[1])["method"] == "is_some" and is_template_lookup(strip(c_[1])["recv"]):
                     okt = True
-    ctx.check(R, "anonymous/unknown-template-rejected", okt, "", site(SSR, fn))
+    cx.check(R, "anonymous/unknown-template-rejected", okt, "", site(SSR, fn))
     # tuple assignment: element-wise, in order, `_` consumes
     rt = find_fn(SSR, "remove_tuples_from_statement")
     if rt is not None and eval_tuple_assignment(ctx, R):
